@@ -230,10 +230,18 @@ func c14One(c *vCtx, cs c14Case) {
 	var rb []byte
 	switch cs.State {
 	case "drain":
+		// the call is issued while the policy write lock is held; calls that have a
+		// retry-later result are answered at once, the others wait for the lock to be released
 		w.e.nfs.policyRWMu.Lock()
 		var err error
-		rb, err = w.e.rawCall(msg)
+		done := make(chan struct{})
+		go func() { rb, err = w.e.rawCall(msg); close(done) }()
+		select {
+		case <-done:
+		case <-time.After(2 * time.Millisecond): // not an oracle: only decides when the lock is released
+		}
 		w.e.nfs.policyRWMu.Unlock()
+		<-done
 		if err != nil {
 			bad("no-reply|state=drain", err.Error())
 			return
